@@ -49,6 +49,9 @@ def simple_scheduler_release(ctx):
     cg = ctx.model.module("dask/core.py").func("get")
     eg_calls = [c for c in calls(cg, "execute_graph")]
     ok = len(eg_calls) == 1 and kwarg(eg_calls[0], "keys") is not None and eqv(kwarg(eg_calls[0], "keys"), "set(flatten([out]))")
+    chk = [l for l in walk_no_nested(cg) if isinstance(l, ast.For) and any(isinstance(n, ast.Raise) for n in ast.walk(l))]
+    okv = len(chk) == 1 and eqv(chk[0].iter, "flatten([out])")
+    ctx.ob("DELEG.core-get.validate", cg, "core.get validates exactly the keys it will request: for k in flatten([out])", okv, "" if okv else "flatten(out) takes a single tuple key apart: get(dsk, ('a', 0)) raises KeyError although the key exists (other schedulers accept it)")
     ctx.ob("DELEG.core-get.keys", cg, "core.get passes keys=set(flatten([out])): a fresh set of ALL requested keys", ok, "" if ok else "execute_graph receives an empty/partial key set (e.g. an exhausted generator): `keys` falsy disables releasing altogether, a partial set releases requested results")
 
 
